@@ -15,7 +15,7 @@ def inStep (regular : Bool) (conv : U32) (cmd frg : BitVec 8) (wnd : BitVec 16) 
   let pu := parseUna k1 una
   let st1 := { st with k := shrinkBuf pu.1, flushSeg := st.flushSeg || decide (pu.2 > 0) }
   if cmd.toNat = IKCP_CMD_ACK then
-    let k2 := parseAck st1.k sn
+    let k2 := shrinkBuf (parseAck st1.k sn)
     let pf := parseFastack k2 sn ts
     { st1 with k := pf.1, flushSeg := st1.flushSeg || pf.2, updRtt := true, latest := ts }
   else if cmd.toNat = IKCP_CMD_PUSH then
@@ -87,8 +87,12 @@ theorem inputLoop_induct (regular : Bool) (P : InLoop → Prop)
 /-! ### frames of the parts of a step -/
 
 theorem shrinkBuf_eq (k : Kcp) :
-    shrinkBuf k = { k with snd_una := match k.snd_buf with | s :: _ => s.sn | [] => k.snd_nxt } := by
+    shrinkBuf k = { k with snd_buf := dropAcked k.snd_buf,
+                           snd_una := match dropAcked k.snd_buf with | s :: _ => s.sn | [] => k.snd_nxt } := by
   unfold shrinkBuf; split <;> rename_i h <;> simp only [h]
+
+theorem shrinkBuf_frame (k : Kcp) : ∃ sb su, shrinkBuf k = { k with snd_buf := sb, snd_una := su } := by
+  rw [shrinkBuf_eq]; exact ⟨_, _, rfl⟩
 
 theorem parseAck_frame (k : Kcp) (sn : U32) : ∃ b, parseAck k sn = { k with snd_buf := b } := by
   unfold parseAck; split
@@ -105,6 +109,14 @@ theorem parseData_frame (k : Kcp) (s : Seg) :
   unfold parseData moveReady
   repeat' split
   all_goals exact ⟨_, _, _, rfl⟩
+
+/-- the ACK path of a step (`parse_ack`, `shrink_buf`, `parse_fastack`) writes only `snd_buf` and `snd_una` -/
+theorem ackPath_frame (k : Kcp) (sn ts : U32) :
+    ∃ b u, (parseFastack (shrinkBuf (parseAck k sn)) sn ts).1 = { k with snd_buf := b, snd_una := u } := by
+  obtain ⟨b, h1⟩ := parseAck_frame k sn
+  obtain ⟨b3, u3, h3⟩ := shrinkBuf_frame (parseAck k sn)
+  obtain ⟨b2, h2⟩ := parseFastack_frame (shrinkBuf (parseAck k sn)) sn ts
+  exact ⟨_, _, by rw [h2, h3, h1]⟩
 
 /-- the connection after the common prologue of a step: window learned, `una` processed -/
 def inPre (regular : Bool) (wnd : BitVec 16) (una : U32) (k : Kcp) : Kcp :=
@@ -131,7 +143,7 @@ variable (regular : Bool) (conv : U32) (cmd frg : BitVec 8) (wnd : BitVec 16) (t
 theorem inStep_k :
     (inStep regular conv cmd frg wnd ts sn una payload st).k =
       if cmd.toNat = IKCP_CMD_ACK then
-        (parseFastack (parseAck (inPre regular wnd una st.k) sn) sn ts).1
+        (parseFastack (shrinkBuf (parseAck (inPre regular wnd una st.k) sn)) sn ts).1
       else if cmd.toNat = IKCP_CMD_PUSH then
         if itimediff sn ((inPre regular wnd una st.k).rcv_nxt + (inPre regular wnd una st.k).rcv_wnd) < 0 then
           if itimediff sn (inPre regular wnd una st.k).rcv_nxt ≥ 0 then
@@ -156,8 +168,9 @@ theorem inStep_frame :
   obtain ⟨sb, su, hp⟩ := inPre_frame regular wnd una st.k
   split
   · obtain ⟨b, h1⟩ := parseAck_frame (inPre regular wnd una st.k) sn
-    obtain ⟨b2, h2⟩ := parseFastack_frame (parseAck (inPre regular wnd una st.k) sn) sn ts
-    rw [h2, h1, hp]
+    obtain ⟨b3, u3, h3⟩ := shrinkBuf_frame (parseAck (inPre regular wnd una st.k) sn)
+    obtain ⟨b2, h2⟩ := parseFastack_frame (shrinkBuf (parseAck (inPre regular wnd una st.k) sn)) sn ts
+    rw [h2, h3, h1, hp]
     exact ⟨_, _, _, _, _, _, _, rfl⟩
   · split
     · split
@@ -183,9 +196,9 @@ theorem inStep_eq (regular : Bool) (conv : U32) (cmd frg : BitVec 8) (wnd : BitV
     (payload : Bytes) (st : InLoop) :
     inStep regular conv cmd frg wnd ts sn una payload st =
       if cmd.toNat = IKCP_CMD_ACK then
-        { st with k := (parseFastack (parseAck (inPre regular wnd una st.k) sn) sn ts).1,
+        { st with k := (parseFastack (shrinkBuf (parseAck (inPre regular wnd una st.k) sn)) sn ts).1,
                   flushSeg := (st.flushSeg || decide (inCnt regular wnd una st.k > 0)) ||
-                    (parseFastack (parseAck (inPre regular wnd una st.k) sn) sn ts).2,
+                    (parseFastack (shrinkBuf (parseAck (inPre regular wnd una st.k) sn)) sn ts).2,
                   updRtt := true, latest := ts }
       else if cmd.toNat = IKCP_CMD_PUSH then
         if itimediff sn ((inPre regular wnd una st.k).rcv_nxt + (inPre regular wnd una st.k).rcv_wnd) < 0 then
